@@ -16,7 +16,9 @@ SHAPES = ["plain", "slots", "dataclass", "namedtuple", "dbc", "dbc_sub_first", "
           "dbc_sub_members", "plain_getattribute", "dbc_sub_noinit", "dbc_sub_prop_setter",
           # a constructor given as an alias (``__init__ = setup``); a built-in container subclass without a Python
           # ``__init__``; a subclass adding ``__init__`` to a base which has none (the base's ``__new__`` is wrapped)
-          "plain_init_alias", "list_sub", "dbc_sub_init_over_noinit"]
+          "plain_init_alias", "list_sub", "dbc_sub_init_over_noinit",
+          # a subclass defining __new__ (calling super().__new__) over a base without __init__ whose __new__ is wrapped
+          "dbc_sub_new_over_noinit"]
 
 #: operations on a constructed instance; (name, wrapped-by-CALL-invariants?)
 OPS = [("pub", True), ("_prot", False), ("__priv", False), ("__call__", True), ("__len__", True), ("__eq__", True),
@@ -142,7 +144,7 @@ class World:
         else:
             # subclass shapes on DBC: the base carries the "base" invariants, the subclass the "sub" ones
             ns = members()
-            if shape == "dbc_sub_init_over_noinit":
+            if shape in ("dbc_sub_init_over_noinit", "dbc_sub_new_over_noinit"):
                 ns["x"] = 1
             else:
                 ns["__init__"] = init_plain
@@ -171,6 +173,20 @@ class World:
                         w.h.constructing -= 1
                 init_sub.__name__ = "__init__"
                 sub_ns["__init__"] = init_sub
+            if shape == "dbc_sub_new_over_noinit":
+                def new_sub(klass: Any) -> Any:
+                    w.h.constructing += 1
+                    try:
+                        inst = base.__new__(klass)
+                        w.h.log.append(("body", "sub.__new__"))
+                        # (no attribute assignment or public call on the new object in here: __new__ sets no in-progress
+                        # mark, so those would be checked on the unfinished object - a stated limit, DESIGN 7.3)
+                        inst.__dict__["y"] = 2
+                        return inst
+                    finally:
+                        w.h.constructing -= 1
+                new_sub.__name__ = "__new__"
+                sub_ns["__new__"] = new_sub
             if shape == "dbc_sub_prop_setter":
                 # the subclass re-uses the inherited getter/deleter and supplies a new setter (``@Base.p.setter``)
                 sub_ns["p"] = base.__dict__["p"].setter(body("prop_set"))
@@ -256,6 +272,8 @@ def _ctor_bodies(w: World) -> List[Tuple[Any, ...]]:
         return []
     if s == "dbc_sub_init_over_noinit":
         return [("body", "sub.__init__"), ("body", "pub")]
+    if s == "dbc_sub_new_over_noinit":
+        return [("body", "sub.__new__")]
     if s in ("dbc_sub_noinit", "dbc_sub_prop_setter"):
         return [("body", "__init__"), ("body", "pub")]
     init = [("body", "__init__"), ("body", "pub")]
